@@ -43,7 +43,9 @@ Lemma is_sitemap_xml_ok v p : v_body v = true -> exists b, is_sitemap_xml v p = 
 Proof. intros Hb. unfold is_sitemap_xml. rewrite (body_ok v Hb). cbn [bind]. eauto. Qed.
 Lemma is_xml_ok v p : full v -> v_body v = true -> exists b, is_xml v p = Ok b.
 Proof.
-  intros Hf Hb. unfold is_xml. destruct (ct_or_mime_ok v (ct_xml p) (mime_xml p) Hf) as [a Ha].
+  intros Hf Hb. unfold is_xml. destruct (resp_ok v Hf) as [code [Hr _]]. rewrite Hr. cbn [bind].
+  destruct (ct_xhtml p); [eauto|].
+  destruct (ct_or_mime_ok v (ct_xml p) (mime_xml p) Hf) as [a Ha].
   rewrite Ha. cbn [bind]. destruct a; [|eauto].
   destruct (is_sitemap_xml_ok v p Hb) as [s Hs]. rewrite Hs. cbn [bind].
   destruct s; [eauto|]. rewrite (mime_ok v Hf). cbn [bind]. eauto.
@@ -167,7 +169,7 @@ Lemma dispatch_unguarded_refuted :
   exists c v p x, v_status v = Archived /\ v_resp v = None /\ postprocess_item c v p x = Panic.
 Proof.
   exists (Conf 20 0 false false), (View Archived None true true true 0 0 0),
-    (Preds false false false false false false false false false false false false false false false false false false),
+    (Preds false false false false false false false false false false false false false false false false false false false),
     (Exts None 0 0 None 0 0).
   repeat split; reflexivity.
 Qed.
@@ -177,7 +179,7 @@ Lemma dispatch_unguarded_mime_refuted :
                   /\ postprocess_item c v p x = Panic.
 Proof.
   exists (Conf 20 0 false false), (View Archived (Some 200) true false true 1 0 0),
-    (Preds false false false false false false false false false false false false false false false false false false),
+    (Preds false false false false false false false false false false false false false false false false false false false),
     (Exts None 0 0 None 0 0).
   repeat split; reflexivity.
 Qed.
@@ -185,7 +187,7 @@ Qed.
 (* non-vacuity: an archived 200 HTML page with a body satisfies the invariant and both extractors run *)
 Example dispatch_nonvacuous :
   let v := View Archived (Some 200) true true true 0 0 0 in
-  let p := Preds true true false false false false false false false true false false false false false false false false in
+  let p := Preds true true false false false false false false false false true false false false false false false false false in
   archiver_inv v
   /\ postprocess_item (Conf 20 1 false false) v p (Exts (Some (3, 1)) 1 0 (Some 4) 1 2)
      = Ok (Out GotChildren 2 8)
